@@ -56,6 +56,36 @@ def environment(env=None, seam=SEAM):
         impl.reset_mode()
 
 
+def run_main_sequence(argvs, envs=None, seam=SEAM):
+    """Several commands in ONE process, no reset in between (a long-lived caller of main()); returns the results."""
+    from metomi.isodatetime.main import main
+    out = []
+    with impl.system_zone(seam):
+        for i, argv in enumerate(argvs):
+            env = (envs or [None] * len(argvs))[i] or {}
+            saved = {k: os.environ.get(k) for k in ("ISODATETIMECALENDAR", "ISODATETIMEREF")}
+            for k in saved:
+                os.environ.pop(k, None)
+            os.environ.update(env)
+            buf = io.StringIO()
+            try:
+                with contextlib.redirect_stdout(buf), contextlib.redirect_stderr(io.StringIO()):
+                    main(list(argv))
+                o = buf.getvalue()
+                out.append(("out", o[:-1] if o.endswith("\n") else o))
+            except SystemExit as ex:
+                out.append(("exit", str(ex.code)))
+            except BaseException as ex:  # noqa
+                out.append(("exc", "%s: %s" % (type(ex).__name__, ex)))
+            finally:
+                for k, v in saved.items():
+                    os.environ.pop(k, None)
+                    if v is not None:
+                        os.environ[k] = v
+    impl.reset_mode()
+    return out
+
+
 def run_main(argv, env=None, seam=SEAM):
     """-> (kind, payload): ("out", text) | ("exit", code) | ("exc", repr)"""
     from metomi.isodatetime.main import main
@@ -534,6 +564,18 @@ def run_options(ctx):
         if a != b:
             ctx.violation("calendar_option_wins", {}, {"kind": "options", "argv": [text, "-s", "P60D", "--calendar", "360day"]},
                           list(b), list(a))
+    # a command that names no calendar uses Gregorian, whatever an earlier command in the same process selected
+    for first, env1 in ((["2000-02-28", "--calendar", "360day"], None), (["2000-02-28", "-s", "P1D"], {"ISODATETIMECALENDAR": "366day"}),
+                        (["R2/2001-01-30T00Z/P1M", "--calendar=365day"], None)):
+        for second in (["2000-02-28", "--offset=P2D"], ["20130101", "20140101"], ["2013-03-01T00Z", "--offset=-P1D"],
+                       ["R3/2001-01-30T00Z/P1M"], ["2001-059", "-s", "P1D", "-f", "CCYY-MM-DD"]):
+            ctx.transitions += 2
+            ctx.state_count += 1
+            alone = run_main(second)
+            seq = run_main_sequence([first, second], [env1, None])[1]
+            if (alone[0], str(alone[1])) != (seq[0], str(seq[1])):
+                ctx.violation("calendar_default_after_earlier_command", {}, {"kind": "options", "argv": second, "after": first},
+                              list(alone), list(seq))
     # ref: --ref and ISODATETIMEREF; now: the clock and zone seams
     for e in ents[:20]:
         text = e[0]
